@@ -852,7 +852,7 @@ class Interp:
         locs = fr.locals
         pre = spec.snapshot(self, locs)
         # 1. establish
-        for nm, cond in spec.clauses(self, locs, pre, lo, lo, hi):
+        for nm, cond in spec.clauses(self, locs, pre, lo, lo, hi, 'goal'):
             self.oblige('loop%d-establish/%s' % (ordinal, nm), cond)
         # 2. havoc
         mod_names, mod_bufs = self.modified(s, fr)
@@ -869,7 +869,7 @@ class Interp:
                 self.exec_block(s.body, fr)
             except ContinueSig:
                 pass
-            for nm, cond in spec.clauses(self, locs, pre, T.sadd(k, 1), lo, hi):
+            for nm, cond in spec.clauses(self, locs, pre, T.sadd(k, 1), lo, hi, 'goal'):
                 self.oblige('loop%d-preserve/%s' % (ordinal, nm), cond)
             raise PathEnd('loop-body')
         # exit path
